@@ -97,7 +97,7 @@ def spec_indented(line):
     return False
 
 
-@lemma('I2.coded-starts', 'C14', quick=[{'k': k} for k in (1, 2, 3)], thorough=[{'k': k} for k in (1, 2, 3, 4, 5)], timeout=900, per_path=60,
+@lemma('I2.coded-starts', 'C14', quick=[{'k': k} for k in (1, 2)], thorough=[{'k': k} for k in (1, 2, 3, 4, 5)], timeout=900, per_path=60,
        covers=['block_token.py:Quote.start', 'block_token.py:BlockCode.start', 'block_token.py:CodeFence.start', 'block_token.py:Table.start',
                'block_token.py:Footnote.start', 'block_token.py:ThematicBreak.start', 'block_token.py:Heading.start', 'block_token.py:List.start'],
        note='a line of k code points over Σmd (+ newline): each start() that is written as code (not only a pattern) accepts the line only if the CommonMark grammar does; '
@@ -179,17 +179,17 @@ def inert(s):
 
 
 def _i3_parts(k):
-    return by('c1', list(I3_ALPH.replace(' ', '')), [{'k': k}])
+    return by('c1', list(I3_ALPH.replace(' ', '').replace('>', '')), [{'k': k}])      # a line starting with '>' is never inert
 
 
-@lemma('I3.inline', 'C14', quick=[{'k': 1}] + by('c1', list('a*_-#>[&1='), [{'k': 2}]),
+@lemma('I3.inline', 'C14', quick=[{'k': 1}] + by('c1', list('a*_-#[&1='), [{'k': 2}]),
        thorough=[{'k': 1}] + _i3_parts(2) + [dict(p, timeout=5000) for p in _i3_parts(3)], timeout=900, per_path=120,
        covers=['block_token.py:Document.__init__', 'block_token.py:Paragraph.__init__', 'span_tokenizer.py:tokenize',
                'core_tokens.py:find_core_tokens', 'html_renderer.py:HtmlRenderer.render_paragraph', 'html_renderer.py:HtmlRenderer.render_raw_text'],
        note="one-line paragraphs of k characters over the property's inert-candidate characters (a 1 space _ * - + # > = | ~ ^ $ % @ [ ] & . ( )), filtered by the independent inertness predicate: rendered as exactly that text, HTML-escaped, in a single <p>")
 def i3_inline(c1: int, c2: int, c3: int) -> bool:
     """
-    pre: all_in(I3_ALPH, P('k'), c1, c2, c3) and fixed(c1, 'c1')
+    pre: fixed(c1, 'c1') and all_in(I3_ALPH, P('k'), c1, c2, c3)
     pre: c1 != 32 and (P('k') < 2 or [c1, c2, c3][P('k') - 1] != 32)
     pre: inert(S(P('k'), c1, c2, c3))
     post: _
